@@ -135,7 +135,8 @@ Print Assumptions C02_agreement_edit.
    audio layer agree on entry and state, nothing pending - through EVERY finite sequence of
    client commands pause / resume / stop / play() / next / previous / play(tlid) / seek within
    the track, tracklist edits (add / move / shuffle / remove) that leave the playing entry in
-   place and add only playable tracks, and natural ends of the playing track (about-to-finish
+   place and add only playable tracks, option changes (random / repeat / single, consume off),
+   and natural ends of the playing track (about-to-finish
    with the announced successor), each
    issued after the notifications of the previous one were delivered (`ok`: the command fits
    the state, the announced successor/predecessor exists, the tlid exists, the seek is within
